@@ -194,7 +194,7 @@ func c05Cmd(t *Term) string {
 	n := len(raw) + 3
 	budget := &c05budget{maxDepth: 2*n*n + 1000, maxCalls: 8*n*n + 1000}
 	impl := c05guard(func() string {
-		f := text.NewFile("f", raw)
+		f := loadFile("f", raw, variantOf(raw, 0))
 		r := text.NewReader(f)
 		var fs *parsley.FileSet
 		if offset <= 1 {
